@@ -283,11 +283,75 @@ func tablesOf(code int) []string {
 	return nil
 }
 
+// Deliverer returns the peer an add-type operation delivers its routes
+// through (the local agent for locally originated routes), or -1.
+func Deliverer(op Op) int {
+	switch op.Code {
+	case OpAdv, OpDAdv, OpFAdv, OpAAdv, OpTAdd:
+		return op.Peer
+	case OpAddLocal, OpAddDyn, OpDAddLocal, OpFAddLocal:
+		return 0
+	}
+	return -1
+}
+
+// UpdateProvenance records, for every route that the operation stored or
+// replaced, the peer that delivered it; routes that are gone are forgotten.
+// prov is the harness's own record of "learned through which peer"; it does
+// not look at the NextHop the implementation stored.
+func UpdateProvenance(prov map[string]int, before, after *Dump, op Op) {
+	bi, ai := index(before), index(after)
+	for id := range prov {
+		if _, ok := ai[id]; !ok {
+			delete(prov, id)
+		}
+	}
+	d := Deliverer(op)
+	for id, as := range ai {
+		bs, had := bi[id]
+		if !had || len(bs) != len(as) || content(bs[0]) != content(as[0]) {
+			if d >= 0 {
+				prov[id] = d
+			}
+		}
+	}
+}
+
 // CheckMaintenance evaluates the C10 rules for one step before -op-> after.
-// nowMs is the virtual time at which the operation ran.
-func CheckMaintenance(before, after *Dump, op Op, ret uint64, nowMs int64) []Failure {
+// nowMs is the virtual time at which the operation ran; prov is the
+// provenance record before the operation.
+func CheckMaintenance(before, after *Dump, op Op, ret uint64, nowMs int64, prov map[string]int) []Failure {
 	var fails []Failure
 	bi, ai := index(before), index(after)
+
+	// every bucket stays metric-sorted (lookups return its head)
+	for _, t := range TableNames {
+		for _, b := range after.Buckets[t] {
+			for i := 1; i < len(b); i++ {
+				if b[i-1].Metric > b[i].Metric {
+					fails = append(fails, Failure{"bucket-not-metric-sorted", fmt.Sprintf("after op %d bucket %s|%s has metric %d before %d", op.Code, t, b[i].Key, b[i-1].Metric, b[i].Metric)})
+					break
+				}
+			}
+		}
+	}
+	// a route stored or replaced by this operation is learned through the
+	// delivering peer and is stamped with the current time
+	if d := Deliverer(op); d >= 0 {
+		for id, as := range ai {
+			bs, had := bi[id]
+			if had && len(bs) == len(as) && content(bs[0]) == content(as[0]) {
+				continue
+			}
+			a := as[0]
+			if op.Code != OpTAdd && a.NextHop != uint64(d) {
+				fails = append(fails, Failure{"learned-route-wrong-nexthop", fmt.Sprintf("%s was delivered by peer %d (op %d, path %v) but is stored with next hop %d: a disconnect of peer %d will not remove it", id, d, op.Code, op.Path, a.NextHop, d)})
+			}
+			if int64(a.LastMs) != nowMs {
+				fails = append(fails, Failure{"accepted-route-not-timestamped", fmt.Sprintf("%s was stored by op %d at %dms but carries LastUpdate %dms: cleanup will treat it as stale", id, op.Code, nowMs, int64(a.LastMs))})
+			}
+		}
+	}
 
 	// rule 2: no stored route's path contains the local agent
 	for _, t := range TableNames {
@@ -349,6 +413,22 @@ func CheckMaintenance(before, after *Dump, op Op, ret uint64, nowMs int64) []Fai
 					}
 				}
 				fails = append(fails, Failure{sig, fmt.Sprintf("disconnect of peer %d on %s: expected %v, got %v", op.Peer, t, multiset(want), multiset(after.All(t)))})
+			}
+		}
+		// by the harness's own provenance record: exactly the routes delivered by the peer go
+		for _, t := range tablesOf(op.Code) {
+			for _, e := range before.All(t) {
+				from, known := prov[ident(e)]
+				if !known {
+					continue
+				}
+				_, still := ai[ident(e)]
+				if from == op.Peer && still {
+					fails = append(fails, Failure{"disconnect-left-route", fmt.Sprintf("%s was learned through peer %d and survived its disconnect (stored next hop %d)", ident(e), op.Peer, e.NextHop)})
+				}
+				if from != op.Peer && !still {
+					fails = append(fails, Failure{"disconnect-removed-foreign-route", fmt.Sprintf("%s was learned through peer %d and was removed by the disconnect of peer %d", ident(e), from, op.Peer)})
+				}
 			}
 		}
 		nRemoved := 0
